@@ -10,6 +10,9 @@ CHECKS = {
  "C14": dict(technique="TLA+ spec Scalars (register machine over exact rings, BigNum limb arithmetic in TLA+); TLC exhaustive on small complete domains with expected values replayed on all 16 scalar types in six operator forms; recorded histories validated by Trace_Scalars",
              text="TLC model-checks the bignum and ring libraries against the ring axioms, enumerates every operand pair/operation of the small domains with the canonical expected value (replayed on every scalar type and operator form), and validates seeded histories of the real types (values to 10^300+, machine ints near their limits) event by event: every result must be the exact ring element in canonical form and every comparison the mathematical answer.",
              note="Trusted: TLC, BigNum.tla/Rings.tla (model-checked), decimal->limb chunking in the harness, Bezout witnesses re-multiplied by TLC. Machine-integer ops only inside the representable envelope.", design="§3 C14"),
+ "C16": dict(technique="TLA+ spec PolyAlg (register machine over the free algebra / free module: polynomial = finite map monomial -> non-zero coefficient, Rings.tla kind P) + MonoOrd (lex / graded lex axioms); TLC exhaustive on small domains; TLC-enumerated transitions replayed into yui::poly::{Poly,LPoly,Poly2,LPoly2,Poly3,LPoly3,PolyN,LPolyN} and yui::lc::Lc over i64, BigInt, Ratio<i64>, FF<3>, FF<5>, GaussInt<i64>; recorded cancellation-heavy histories validated by Trace_PolyAlg",
+             text="TLC model-checks the polynomial oracle (ring axioms over Z, Q, F_p, Z[i] in 1-3 variables, evaluation homomorphism, multiplicative leading term, linearity of map_gens/filter/apply/combine), the lex / graded-lex order axioms on all monomial triples with exponents -2..2 in 1-3 variables, and the PolyAlg register machine exhaustively on small domains (no zero coefficient is ever held; ==, is_zero, nterms, lead term are those of the mathematical polynomial). Every TLC transition over the complete small operand domains is replayed on every implementation type of the ring in every operator form with the full observation compared, and seeded cancellation-heavy histories of the real types (stored term list as iterated, nterms, is_zero, is_one, is_const, lead_term, lead_deg, == against every register, eval, coeff, inv, monomial orders and arithmetic) are validated event by event against the spec.",
+             note="Trusted: TLC, BigNum/Rings/Polys.tla (model-checked), the harness' projection (iteration of the stored map, deg()/MultiDeg::iter for stored exponents). Machine coefficient types only inside a no-overflow envelope; eval only where the API admits it (usize exponents over i64/BigInt); multivariate indices 0..3.", design="§3 C16"),
 }
 PENDING = "not yet bound to the specification in this round (see DESIGN.md section 3 for the planned spec and binding)"
 m = {
